@@ -10,6 +10,7 @@ import (
 	"context"
 	"fmt"
 	"io"
+	"runtime"
 	"strconv"
 	"strings"
 	"sync"
@@ -58,11 +59,11 @@ type Op struct {
 	DeadlineMs int    `json:"deadlineMs,omitempty"`
 	CancelMs   int    `json:"cancelMs,omitempty"`
 	Async      bool   `json:"async,omitempty"`
-	Con        bool   `json:"con,omitempty"`     // write: confirmable
-	Code       int    `json:"code,omitempty"`    // write: message code (POST=2, Content=69 ...)
-	Notifs     int    `json:"notifs,omitempty"`  // observe: notifications the server sends afterwards
+	Con        bool   `json:"con,omitempty"`      // write: confirmable
+	Code       int    `json:"code,omitempty"`     // write: message code (POST=2, Content=69 ...)
+	Notifs     int    `json:"notifs,omitempty"`   // observe: notifications the server sends afterwards
 	NotifLen   int    `json:"notifLen,omitempty"` // observe: body size of each notification
-	Ref        int    `json:"ref,omitempty"`     // cancelobs: index of the observe op
+	Ref        int    `json:"ref,omitempty"`      // cancelobs: index of the observe op
 	ETag       bool   `json:"etag,omitempty"`
 	Ms         int    `json:"ms,omitempty"` // sleep
 }
@@ -76,6 +77,8 @@ type Scenario struct {
 	TickMs    int              `json:"tickMs"`
 	Ops       []Op             `json:"ops"`
 	SettleMs  int              `json:"settleMs,omitempty"` // idle time (with ticks) before the final table read-out
+	// NotifHoldMs: the observe callback keeps its notification for this long before it returns (C12)
+	NotifHoldMs int `json:"notifHoldMs,omitempty"`
 }
 
 // Body is the position-dependent pseudo-random body for (seed, n): never zeros, so that a block
@@ -109,6 +112,7 @@ type NotifRec struct {
 	BodyLen int
 	BodyOK  bool
 	Code    int
+	Changed string // C12: the notification changed while the callback was running
 }
 
 type HandlerRec struct {
@@ -146,7 +150,7 @@ type Trace struct {
 	PoolReleases  int64
 	End           time.Duration
 	Wire          []string // decoded wire log (only with Debug)
-	LiveObs       int // observations that are still registered at the end (not cancelled, registration succeeded)
+	LiveObs       int      // observations that are still registered at the end (not cancelled, registration succeeded)
 }
 
 // Debug makes Run record a decoded wire log.
@@ -563,6 +567,7 @@ func Run(t *testing.T, sc Scenario, track bool) (tr Trace) {
 				req.SetToken([]byte{0xA0, byte(i)})
 				first := true
 				ob, err := cli.DoObserve(req, func(n *pool.Message) {
+					before := snap(n)
 					b, _ := n.ReadBody()
 					nr := NotifRec{T: time.Since(start), BodyLen: len(b), Code: int(n.Code()), Seq: -1}
 					if s, err := n.Observe(); err == nil {
@@ -576,6 +581,21 @@ func Run(t *testing.T, sc Scenario, track bool) (tr Trace) {
 						nr.BodyOK = bytes.Equal(b, Body(i*1000+k, op.NotifLen))
 					}
 					_ = first
+					mu.Unlock()
+					if sc.NotifHoldMs > 0 {
+						if sc.Transport == "tcp" {
+							time.Sleep(time.Duration(sc.NotifHoldMs) * time.Millisecond)
+						} else {
+							// the datagram receiver holds a per-message-ID sync.Mutex around the callback; a
+							// duplicate blocked on it is not "durably blocked" for synctest, so virtual time
+							// could never advance past a Sleep here: yield instead
+							for k := 0; k < 50*sc.NotifHoldMs; k++ {
+								runtime.Gosched()
+							}
+						}
+					}
+					nr.Changed = before.diff(snap(n))
+					mu.Lock()
 					r.Notifs = append(r.Notifs, nr)
 					tr.Ops[i].Notifs = r.Notifs
 					mu.Unlock()
